@@ -36,10 +36,13 @@ func run(seed int64, n int, dir string, _ []string) {
 
 	// corpus: the witness of known finding F41 (REPLACE with a repeated existing key) runs first, for every seed
 	dml.KnownReplaceWitness(g, o, root)
+	// corpus: every statement kind inside IF / nested IF / WHILE / function body / PREPARE-EXECUTE, for every seed
+	dml.NestedCorpus(g, o, root)
 
 	stmts := 0
 	for seq := 0; stmts < n; seq++ {
 		r := dml.NewSequence(g, o, root, seq, false, 400)
+		r.Wraps = 25
 		if seq == 0 {
 			// corpus: pre-finding F4 (REPLACE appended the unmatched rows in map order) always runs first
 			if st := r.ReplaceWitness(); st != nil {
